@@ -123,8 +123,19 @@ func (value Value) Compare(other Value) int {
 			return -1
 		} else if value.Float > other.Float {
 			return 1
-		} else {
+		} else if value.Float == other.Float {
 			return 0
+		} else {
+			// At least one of the values is NaN. NaN's are equal to each other and sort before all other floats,
+			// so that the ordering stays total.
+			valueIsNaN, otherIsNaN := math.IsNaN(value.Float), math.IsNaN(other.Float)
+			if valueIsNaN && otherIsNaN {
+				return 0
+			} else if valueIsNaN {
+				return -1
+			} else {
+				return 1
+			}
 		}
 
 	case TypeIDBoolean:
@@ -260,7 +271,14 @@ func (value Value) hash(hash uint64) uint64 {
 		hash = fnv1a.AddUint64(hash, uint64(value.Int))
 
 	case TypeIDFloat:
-		hash = fnv1a.AddUint64(hash, math.Float64bits(value.Float))
+		// Values which compare as equal must hash equally: -0.0 == +0.0 and all NaN's are equal.
+		f := value.Float
+		if f == 0 {
+			f = 0
+		} else if math.IsNaN(f) {
+			f = math.NaN()
+		}
+		hash = fnv1a.AddUint64(hash, math.Float64bits(f))
 
 	case TypeIDBoolean:
 		if value.Boolean {
